@@ -1,6 +1,6 @@
 SPECIFICATION Spec
 CONSTANTS
-  Interval = 8
+  Interval = 16
   MaxLen = 6
   Thresholds = {0, 1, 2, 3}
   AnswerDelays = {0}
@@ -9,6 +9,11 @@ CONSTANTS
   CtxSlots <- GenCtxSlots
   EnvMaxLen = 4
   EnvProduct = FALSE
-INVARIANTS TypeOK InvAccuracy InvTiming InvSilentStop InvCounter InvCompleteness InvFinal InvGoneAtClose InvNoTickAfterUser InvGoneWhenClosing Export
+  StallKinds <- AllStalls
+  MaxStalls = 1
+  StallMaxLen = 4
+  EstModes <- AllEst
+  EstMaxLen = 3
+INVARIANTS TypeOK InvAccuracy InvTiming InvSilentStop InvCounter InvCompleteness InvFinal InvGoneAtClose InvNoTickAfterUser InvGoneWhenClosing InvGrid Export
 PROPERTIES NoPingAfterStop Terminates
 CHECK_DEADLOCK FALSE
